@@ -75,13 +75,17 @@ fn sweep_config(mk_storage: &dyn Fn() -> Arc<dyn Storage>, backend: &str, cfg: C
     // the counter is swept to u32::MAX - 1: both backends increment it (DESIGN.md 3.7)
     let sinces: Vec<u64> = measures_around(cfg.versions as i128, (u32::MAX - 1) as i128).into_iter().map(|x| x as u64).collect();
     // no snapshot at all => high
-    let mut all: Vec<Option<(i64, u64)>> = vec![None];
+    // a snapshot is "d days old" for a whole day: early in it and late in it
+    let offsets: [i64; 2] = [3600, 86_340];
+    let mut all: Vec<(Option<(i64, u64)>, i64)> = vec![(None, 0)];
     for d in &days {
         for s in &sinces {
-            all.push(Some((*d, *s)));
+            for o in offsets {
+                all.push((Some((*d, *s)), o));
+            }
         }
     }
-    for case in all {
+    for (case, offset) in all {
         cases += 1;
         *seq += 1;
         let c = det_uuid(seed, 7, *seq);
@@ -96,7 +100,7 @@ fn sweep_config(mk_storage: &dyn Fn() -> Arc<dyn Storage>, backend: &str, cfg: C
                 txn.set_snapshot(
                     Snapshot {
                         version_id: v0,
-                        timestamp: Utc::now() - Duration::days(d) - Duration::hours(1),
+                        timestamp: Utc::now() - Duration::days(d) - Duration::seconds(offset),
                         versions_since: s as u32,
                     },
                     b"snap".to_vec(),
@@ -128,8 +132,8 @@ fn sweep_config(mk_storage: &dyn Fn() -> Arc<dyn Storage>, backend: &str, cfg: C
                 grid.push((d, s, Some(got)));
                 if !want.contains(got) {
                     findings.push(json!({"class": "wrong-urgency", "backend": backend, "config": [cfg.days, cfg.versions], "days": d, "since": s,
-                        "msg": format!("targets (days={}, versions={}), snapshot {} days old with {} versions since: server answered urgency={}, the property requires {:?}",
-                            cfg.days, cfg.versions, d, s, urg_str(got), want)}));
+                        "msg": format!("targets (days={}, versions={}), snapshot {} days and {} s old with {} versions since: server answered urgency={}, the property requires {:?}",
+                            cfg.days, cfg.versions, d, offset, s, urg_str(got), want)}));
                 }
             }
             Resp::Panic(m) => {
